@@ -145,7 +145,7 @@ Fixpoint split0 (s : bytes) : option (bytes * bytes) :=
 Definition read_string (s : bytes) : res (bytes * bytes) :=
   match split0 s with
   | Some (p, r) => Ok (lossy p, r)
-  | None => match s with [] => Panic | _ => Ok (lossy s, []) end
+  | None => match s with [] => Panic | _ => Ok (lossy (removelast s), []) end
   end.
 
 (** [cursor.advance(5)] (Parse::get_name, Bind::get_name): asserts pos <= len. *)
